@@ -274,9 +274,21 @@ def _pintr_must(P, busy, tis, period=5, window="none", lo=1, hi=2, **kw):
         if t.kind == "var":
             cl.append((f"start_not_inside_{t.name}", Implies(active, Not(And(bs > o_lo, bs < o_hi)))))
             cl.append((f"end_not_inside_{t.name}", Implies(active, Not(And(be > o_lo, be < o_hi)))))
+            if window == "none":
+                # the task is lengthened by the interruptions it spans: every occurrence inside dates 0..PINTR_HB spelled out
+                bounded = And(be <= PINTR_HB, off >= -period, off <= period)
+                over = Sum([z3.If(And(bs <= lo + off + k * period, be >= hi + off + k * period), hi - lo, 0)
+                            for k in range(-3, PINTR_HB // period + 3)])
+                d = t.obj._duration
+                cl.append((f"net_duration_min_{t.name}", Implies(And(active, bounded), d - over >= t.vmin)))
+                if t.vmax is not None:
+                    cl.append((f"net_duration_max_{t.name}", Implies(And(active, bounded), d - over <= t.vmax)))
         else:
             cl.append((f"no_overlap_{t.name}", Implies(And(active, be > bs), Not(And(bs < o_hi, be > o_lo)))))
     return cl
+
+
+PINTR_HB = 14
 
 
 RELEMENTS["ResourcePeriodicallyInterrupted"] = RElement(
